@@ -914,6 +914,12 @@ func (e *sidEnv) ledgerPrograms(addrs [][8]byte, ids []atree.SlabID) {
 				} else {
 					o = "id=" + rawHex(id)
 					e.freshOracle("LedgerBaseStorage", genSeen, op.addr, id)
+					// model-free: the identifier is made of the requested address and the index the ledger allocated
+					var want atree.SlabIndex
+					binary.BigEndian.PutUint64(want[:], l.ctr[string(op.addr[:])])
+					if id != atree.NewSlabID(op.addr, want) {
+						e.violation("C09", fmt.Sprintf("LedgerBaseStorage.GenerateSlabID(%x) returned %s, the ledger allocated index %x", op.addr, rawHex(id), want))
+					}
 				}
 			case "store":
 				e.w.L("LOP store id=%s d=%s", rawHex(op.id), hx0(op.data))
